@@ -138,7 +138,7 @@ def gen_case(rng, tier):
     ordered = [d for d in s.docs]
     # exactly one unsafe element per case (an unsafe node that is refused aborts the build and would mask everything after it);
     # everything else is safe and must keep working
-    focus = rng.choice(['dyn', 'dyn', 'taint', 'taint', 'deep', 'deep', 'rename', 'alias', 'rec'])
+    focus = rng.choice(['dyn', 'dyn', 'taint', 'taint', 'deep', 'deep', 'rename', 'alias', 'rec', 'override', 'late_marker'])
     # --- dynamic nodes with merge histories
     keys = []
     n_dyn = rng.choice([1, 1, 2, 3])
@@ -388,6 +388,21 @@ def gen_case(rng, tier):
     for d in ordered:
         if d['doc']['items'] or d is safe1:
             sources.append({'text': emit.emit(d['doc'], rng.choice(['flow', 'block'])), 'safe': d['safe']})
+    if focus == 'override':
+        # an explicit safe=True somewhere below an !unsafe node does not make what is below it safe again
+        i = s.uid()
+        dyn = rng.choice([f'!call:verif_targets.u{i} {{x: 1}}', f'!eval "T.u{i}(1)"', f'!import vtaint_{i}.thing', f'!bind:vtaint_{i}.f {{x: 1}}'])
+        lvl = rng.choice(["a: !metadata{{'safe': True}}\n    b: " + dyn, "a: !metadata{{'safe': True}}\n    m:\n      b: " + dyn,
+                          "m:\n    a: !metadata{{'safe': True, 'note': 1}}\n      - 0\n      - " + dyn])
+        sources.append({'text': f'ov{i}: !unsafe\n  {lvl}\n', 'safe': True})
+    if focus == 'late_marker':
+        # a later stage marks the container !unsafe: what the container already held is below an !unsafe node from then on
+        i = s.uid()
+        dyn = rng.choice([f'!call:verif_targets.u{i} {{x: 1}}', f'!eval "T.u{i}(1)"', f'!import vtaint_{i}.thing'])
+        deep = rng.random() < 0.5
+        sources.insert(0, {'text': (f'lm: {{x: {dyn}, z: 1}}\n' if not deep else f'lm: {{s: {{x: {dyn}}}, z: 1}}\n'), 'safe': True})
+        late = rng.choice(['lm: !unsafe {y: 2}\n', '--- !unsafe\nlq: 1\n', "lm: !metadata{{'safe': False, 'priority': -1}} {y: 2}\n"])
+        sources.append({'text': late, 'safe': True})
     if raw_alias:
         sources.append({'text': raw_alias, 'safe': True})
     files = dict(rec_files)
